@@ -10,7 +10,7 @@ import ast
 import re
 import itertools
 
-from ..engine.program import AnalysisError, dotted, src, walk_no_nested, call_name
+from ..engine.program import AnalysisError, dotted, src, walk_no_nested, call_name, enclosing_stmt
 from ..engine import flow, symexec
 from ..engine.dataflow import local_defs, reaching_defs
 
@@ -557,7 +557,104 @@ def w7(prog, ctx):
     ctx.floor("W7", "sites typing a record ambiguous in the resolver", n, 2)
 
 
+def w8(prog, ctx):
+    """The weight of a read is 1/k with k = len(extractor.get_features(read)): k has to count DISTINCT features (a read whose matches name one
+    gene twice is a read of one gene).  Every get_features implementation returns a set - or a sequence made from one - on every path."""
+    from ..engine.setorder import Census
+    census = Census(prog)
+    n = 0
+    for m, q, f in prog.all_functions():
+        if m.rel != LRC or not q.endswith(".get_features"):
+            continue
+        for r in [x for x in walk_no_nested(f) if isinstance(x, ast.Return)]:
+            n += 1
+            e = r.value
+            while isinstance(e, ast.Call) and call_name(e) in ("sorted", "list", "tuple", "frozenset") and e.args:
+                e = e.args[0]
+            if e is not None and census.is_set_expr(e, f):
+                ctx.ok("W8", "%s:%d" % (m.rel, r.lineno), "%s returns a set of features" % q)
+                continue
+            # a sequence: distinct only if built under a membership test or from dict keys
+            kind = None
+            if isinstance(e, (ast.List, ast.ListComp, ast.Tuple)):
+                kind = "a list"
+            elif isinstance(e, ast.Name):
+                appends = [c for c in walk_no_nested(f) if isinstance(c, ast.Call) and src(c.func) == e.id + ".append"]
+                if appends:
+                    guarded = all(any(isinstance(t, ast.Compare) and isinstance(t.ops[0], ast.NotIn) == pol and src(t.comparators[0]) == e.id
+                                      and isinstance(t.ops[0], (ast.In, ast.NotIn))
+                                      for t, pol in flow.guard_facts(enclosing_stmt(c), stop=f)) for c in appends)
+                    if guarded:
+                        ctx.ok("W8", "%s:%d" % (m.rel, r.lineno), "%s returns a list filled under `not in` tests" % q)
+                        continue
+                    kind = "a list filled by append without a membership test"
+                else:
+                    ds = [st.value for st in walk_no_nested(f) if isinstance(st, ast.Assign) and len(st.targets) == 1 and src(st.targets[0]) == e.id]
+                    if ds and all(isinstance(d, (ast.List, ast.ListComp)) for d in ds):
+                        kind = "a list"
+            many_to_one = any(isinstance(x, ast.Attribute) and x.attr == "assigned_gene" for x in walk_no_nested(f))
+            if kind and not many_to_one:
+                # one match per isoform: whether two matches can name the same feature here is not visible in the code
+                ctx.undecided("W8", r, q, "returns %s of per-match features; distinctness depends on the matches being distinct" % kind)
+            elif kind:
+                ctx.fail("W8", r, q, src(r)[:80], "get_features returns %s: a feature named by two matches of the read is returned twice, so the "
+                         "read is weighted 1/k with k = number of matches instead of the number of distinct features, and the repeated "
+                         "feature is credited more than once" % kind)
+            else:
+                ctx.undecided("W8", r, q, "cannot tell whether %s has distinct elements" % src(r.value)[:60])
+    ctx.floor("W8", "return sites of get_features implementations", n, 2)
+
+
+def w9(prog, ctx):
+    """Per-chromosome statistics files are ADDED into the merged statistics: inside the loop over the files the accumulator changes only
+    through `acc[key] += value`."""
+    FU = "src/file_utils.py"
+    f = prog.func_inlined(FU, "merge_counts")
+    accs = {}
+    for st in f.body:
+        if isinstance(st, ast.Assign) and len(st.targets) == 1 and isinstance(st.targets[0], ast.Name) and isinstance(st.value, ast.Dict) \
+                and st.value.values and all(isinstance(v, ast.Constant) and v.value == 0 for v in st.value.values):
+            accs[st.targets[0].id] = st
+    if not accs:
+        ctx.undecided("W9", f, "merge_counts", "no zero-initialised statistics table found")
+        return
+    n = 0
+    for acc in accs:
+        adds = []
+        for lp in [l for l in walk_no_nested(f) if isinstance(l, (ast.For, ast.While))]:
+            for st in walk_no_nested(lp):
+                if isinstance(st, ast.AugAssign) and isinstance(st.target, ast.Subscript) and src(st.target.value) == acc:
+                    if isinstance(st.op, ast.Add):
+                        adds.append(st)
+                    else:
+                        n += 1
+                        ctx.fail("W9", st, "merge_counts", src(st)[:80], "the merged statistics are combined with another operation than +")
+                elif isinstance(st, ast.Assign) and any((isinstance(t, ast.Subscript) and src(t.value) == acc) or src(t) == acc for t in st.targets):
+                    n += 1
+                    ctx.fail("W9", st, "merge_counts", src(st)[:80], "inside the loop over the per-chromosome files the statistics table is "
+                             "overwritten, not added to: the merged __ambiguous / __no_feature / __usable numbers are those of the last "
+                             "chromosome only")
+                elif isinstance(st, ast.Expr) and isinstance(st.value, ast.Call) and isinstance(st.value.func, ast.Attribute) \
+                        and src(st.value.func.value) == acc and st.value.func.attr in ("update", "setdefault", "clear", "pop", "__setitem__"):
+                    n += 1
+                    ctx.fail("W9", st, "merge_counts", src(st)[:80], "inside the loop over the per-chromosome files the statistics table is changed "
+                             "with .%s(): values of one chromosome replace those of the chromosomes merged before instead of being added"
+                             % st.value.func.attr)
+        for a in adds:
+            n += 1
+            ctx.ok("W9", "%s:%d" % (FU, a.lineno), "%s accumulated with += per file line" % acc)
+        if not adds and not n:
+            ctx.undecided("W9", accs[acc], "merge_counts", "no `%s[...] += ...` inside a loop over the statistics files" % acc)
+    ctx.floor("W9", "updates of the merged statistics table", n, 1)
+
+
 def run(prog, ctx):
+    ctx.rule("W8", "every get_features implementation of the assignment extractors returns a set (or a sequence made from one / filled under a "
+                   "membership test): the k of the 1/k weight counts distinct features")
+    w8(prog, ctx)
+    ctx.rule("W9", "in merge_counts the zero-initialised statistics table is changed inside the loop over the per-chromosome files only by "
+                   "`table[key] += value` (no update(), no overwrite)")
+    w9(prog, ctx)
     ctx.rule("W5", "every create_gene_counter / create_transcript_counter call passes args.gene_quantification / "
                    "args.transcript_quantification respectively and an output path of the same level; the factories pass the strategy "
                    "to ReadWeightCounter and use their own level's extractor")
